@@ -183,6 +183,7 @@ func c03Catalogue(a *ChildArgs) {
 		a.Rec.Count("catalogue_cases", 1)
 	}
 	c03RowCounts(a)
+	c03Boundaries(a)
 	g := gen.New(rand.New(rand.NewSource(1)), nil)
 	x := cases[len(cases)/2].Build(g)
 	a.Rec.Sample("catalogue", 2, map[string]string{"id": cases[len(cases)/2].ID, "sql": gen.Plain(x.Toks)})
@@ -220,6 +221,53 @@ func c03RowCounts(a *ChildArgs) {
 			if !strings.Contains(dumped, f.field+"=&"+want+")") && !strings.Contains(dumped, f.field+"=&"+want+" ") {
 				a.Rec.Viol("C03/row-count/"+f.name+"/"+lit+"#value", "every literal appears in the tree with its written value",
 					fmt.Sprintf("%s is accepted and the tree does not carry %s=%s: %s", sql, f.field, lit, trunc(dumped, 300)), map[string]interface{}{"sql": sql, "tree": dumped})
+			}
+		}
+	}
+}
+
+// c03Boundaries: statements in which one clause ends exactly where an optional clause of the enclosing statement
+// begins with the same keyword (WITH, RETURNING ...). They are written by hand, with the fields the tree must carry.
+func c03Boundaries(a *ChildArgs) {
+	for _, b := range []struct {
+		sql  string
+		want []string
+	}{
+		{"CREATE VIEW v AS SELECT a, COUNT(*) FROM t GROUP BY a WITH CHECK OPTION", []string{`WithOption="CHECK OPTION"`, "GroupBy="}},
+		{"CREATE VIEW v AS SELECT a FROM t GROUP BY a, b WITH CASCADED CHECK OPTION", []string{`WithOption="CASCADED CHECK OPTION"`}},
+		{"CREATE VIEW v AS SELECT a FROM t GROUP BY a WITH LOCAL CHECK OPTION", []string{`WithOption="LOCAL CHECK OPTION"`}},
+		{"CREATE MATERIALIZED VIEW v AS SELECT a FROM t GROUP BY a WITH NO DATA", []string{"WithData=&false"}},
+		{"CREATE MATERIALIZED VIEW v AS SELECT a FROM t GROUP BY a WITH DATA", []string{"WithData=&true"}},
+		{"CREATE VIEW v AS SELECT a FROM t ORDER BY a WITH CHECK OPTION", []string{`WithOption="CHECK OPTION"`}},
+		{"SELECT a FROM t GROUP BY a WITH ROLLUP", []string{"GroupBy="}},
+		{"SELECT a FROM t GROUP BY a WITH CUBE", []string{"GroupBy="}},
+		{"INSERT INTO t (a) SELECT b FROM u RETURNING a", []string{"Returning=", `(TableReference Name="u")`}},
+		{"INSERT INTO t (a) SELECT b FROM u, w RETURNING a, b", []string{"Returning=", `(TableReference Name="w")`}},
+		{"INSERT INTO t SELECT b FROM u NATURAL JOIN v RETURNING a", []string{"Returning="}},
+		{"INSERT INTO t SELECT b FROM u CROSS JOIN v RETURNING *", []string{"Returning="}},
+		{"INSERT INTO t SELECT b FROM u AS x RETURNING a", []string{"Returning=", `Alias="x"`}},
+		{"WITH d AS (DELETE FROM u WHERE a = 1 RETURNING b) SELECT b FROM d", []string{"Returning="}},
+		{"SELECT MODE() WITHIN GROUP (ORDER BY salary) FROM emp", []string{"WithinGroup=", `Name="salary"`}},
+		{"SELECT COUNT(*) FILTER (WHERE a > 1), f() FILTER (WHERE b) FROM t", []string{"Filter="}},
+		{"SELECT a FROM t UNION SELECT b FROM u EXCEPT SELECT c FROM v UNION ALL SELECT d FROM w", []string{`Operator="EXCEPT"`, "All=true"}},
+	} {
+		for v, sql := range []string{b.sql, strings.ToLower(b.sql), strings.ReplaceAll(b.sql, " ", "\n  ")} {
+			a.Rec.Count("evaluations", 1)
+			a.Rec.Count("boundary_cases", 1)
+			tree, err := gosqlx.Parse(sql)
+			if err != nil {
+				a.Rec.Viol("C03/boundary/"+b.sql+"#reject", "a statement of the documented surface is never rejected", "error: "+firstLine(err.Error()), map[string]interface{}{"sql": sql})
+				break
+			}
+			if v > 0 {
+				continue // the field spellings below are those of the upper-case text
+			}
+			dumped := dump.Tree(tree).String()
+			for _, w := range b.want {
+				if !strings.Contains(dumped, w) {
+					a.Rec.Viol("C03/boundary/"+b.sql+"#tree", "the returned tree is the one the grammar prescribes", "the tree does not carry "+w+": "+trunc(dumped, 400), map[string]interface{}{"sql": sql})
+					break
+				}
 			}
 		}
 	}
